@@ -116,10 +116,16 @@ def build_lib(variant="asan"):
     body = "\n".join(lines) + "\n"
     stamp = os.path.join(vdir, "Makefile.stamp")
     h = hashlib.sha1(body.encode()).hexdigest()
-    old = open(stamp).read() if os.path.exists(stamp) else ""
-    if old != h:
-        open(stamp, "w").write(h)
-    open(mk, "w").write(body)
+    # concurrent checks share this directory: the Makefile is replaced atomically and only under the build lock
+    # (a make of another check must never read a half written file)
+    with _Lock(os.path.join(vdir, ".lock")):
+        old = open(stamp).read() if os.path.exists(stamp) else ""
+        if old != h:
+            open(stamp, "w").write(h)
+        if not os.path.exists(mk) or open(mk).read() != body:
+            tmp = "%s.%d.tmp" % (mk, os.getpid())
+            open(tmp, "w").write(body)
+            os.replace(tmp, mk)
     _run_make(mk, "all")
     return os.path.join(vdir, "libzvbi-verif.a")
 
